@@ -66,6 +66,42 @@ CHECKS = {
         "Context sets valid for the graph; nesting bounded by the generator; reference parser and scope checker of the harness are the specification.",
         "DESIGN.md section 6, C14",
     ),
+    "C08": (
+        "metamorphic property-based testing (proptest): meaning-preserving rewrites of the formula text",
+        "No counterexample among generated formulae and rewrites (injective renaming incl. permuted internal names, whitespace noise, redundant parentheses, long spellings, constant spellings, combined): raw and sanitised results are BDD-equal. Exploration.",
+        "Rewrites are self-checked against the reference parser; whitespace only between tokens / header parts.",
+        "DESIGN.md section 6, C08",
+    ),
+    "C10": (
+        "metamorphic property-based testing (proptest): substitution of closed sub-formulae by wild-cards bound to their raw results",
+        "No counterexample among generated formulae with 1-3 simultaneous replacements (all occurrences of a chosen sub-formula share one wild-card): raw and sanitised results unchanged; plain formulae through extended entry points with an empty context equal the plain entry points. Thorough tier adds bundled benchmark models. Exploration.",
+        "Only closed sub-formulae are replaced; raw sets come from the dirty entry point on the same graph object.",
+        "DESIGN.md section 6, C10",
+    ),
+    "C12": (
+        "differential property-based testing (proptest): dedicated pattern evaluation vs generic evaluation of a pattern-defeating rewrite; explicit-state reference",
+        "No counterexample among generated formulae with the two patterns / near-misses planted at the root, under operators, inside (restricted) quantifier scopes, in batches, on constrained networks: shortcut result == generic result == explicit semantics. Exploration.",
+        "`{x} & {x}` for `{x}` is logically identical and not recognised by the pattern matcher (by reading it).",
+        "DESIGN.md section 6, C12",
+    ),
+    "C15": (
+        "property-based testing (proptest): differential across k, raw vs sanitised point-wise",
+        "No counterexample: sanitised results live in the canonical context (names/order of SymbolicAsyncGraph::new), interoperate with that graph, equal the raw results point-wise and are BDD-equal for k = depth, depth+1, depth+3. Exploration.",
+        "Trusted base of C01.",
+        "DESIGN.md section 6, C15",
+    ),
+    "C18": (
+        "differential property-based testing (proptest): unsafe_ex variant vs standard evaluation; explicit model decides steady-state freedom",
+        "No counterexample on (a) the loop-insensitive fragment on arbitrary networks and (b) arbitrary plain formulae on steady-state-free networks: model_check_formula_unsafe_ex == model_check_formula_dirty == explicit semantics. Exploration.",
+        "Trusted base of C01.",
+        "DESIGN.md section 6, C18",
+    ),
+    "C20": (
+        "differential property-based testing (proptest): colour slice of the parametrised result vs result on the network instantiated by pick_witness",
+        "No counterexample among generated (network, valid colour, formula): the states the result associates with a colour equal the result on the instantiated network. Thorough tier adds bundled benchmark models. Exploration.",
+        "lib-param-bn's pick_witness is trusted to instantiate the colour (independent of the harness's FnUpdate interpreter).",
+        "DESIGN.md section 6, C20",
+    ),
 }
 
 PENDING_REASON = "check not built yet in this session (work in progress; see DESIGN.md section 10)"
